@@ -174,5 +174,5 @@ package extendeddaemonset
 //@   ensures [C13] faithful-template: sameTemplateScalars(&result.Spec.Template, &daemonset.Spec.Template)
 //@   ensures [C12,C13] belongs-to-the-daemonset: result.ObjectMeta.Namespace == daemonset.ObjectMeta.Namespace
 //@             && result.ObjectMeta.Labels != nil && result.ObjectMeta.Labels["extendeddaemonset.datadoghq.com/name"] == daemonset.ObjectMeta.Name
-//@   loop 1 invariant forall k string :: (k in labels) ==> k == "extendeddaemonset.datadoghq.com/name" || (k in daemonset.ObjectMeta.Labels)
-//@   loop 1 invariant ("extendeddaemonset.datadoghq.com/name" in labels)
+//@   ensures [C12,C13] no-label-from-elsewhere: forall k string :: (k in result.ObjectMeta.Labels) ==> k == "extendeddaemonset.datadoghq.com/name" || old(k in daemonset.ObjectMeta.Labels)
+//@   loop 1 invariant forall k string :: (k in labels) ==> (k in daemonset.ObjectMeta.Labels)
